@@ -105,6 +105,21 @@ CHECKS = {
         note=('In declaring blocks only syntax-breaking faults are injected (other edits can be valid declarations that break their '
               'users). A mutation that yields no error anywhere is not a fault and is skipped (counted). XML input only in this revision.'),
     ),
+    'C07': dict(
+        engine='oracle-server (document dump + symbol table + member-access types) + Hypothesis collision-model generator with a scope-stack reference (harness/py/prop_C07.py)',
+        technique='model-based property testing against a lexical-scoping reference: one name declared at a drawn subset of 16 scope levels with distinguishable types, use sites located by unique literals, binding identified by the type bound of the symbol found in the parsed tree',
+        category='exploration',
+        text=('The name n is declared at drawn scope levels (global at a drawn position, template parameter / local, function '
+              'parameter / local in global and template-local functions, nested blocks, iteration binders incl. nested and '
+              'brace-less, quantifier binders incl. nested, select binders, instantiation parameter) with pairwise different '
+              'bounds. About 35 use sites per model lie before and after each declaration, inside and after each scope, in all '
+              'label kinds, in another template, in instantiation arguments and in queries (unqualified, P1.n, P1.m with argument '
+              'substitution through up to two partial instantiations). Each site must be bound to the declaration the scope-stack '
+              'reference predicts, or be reported unknown when none precedes.'),
+        design_ref='DESIGN.md 4/C07',
+        note=('The reference is the emitter\'s own scope stack (textual order). Dynamic templates and LSC are not generated. '
+              'Query sites are judged only when the document itself is error free (queries are typed against a clean document).'),
+    ),
     'C08': dict(
         engine='oracle-server invariant predicate (harness/cpp/dump.h Dumper::invariants) + xmlmut enumeration + Hypothesis model generator with recovery-provoking mutations + libFuzzer targets with the predicate switched on (harness/py/prop_C08.py)',
         technique='invariant checking over generated and fuzzed inputs: complete traversal of every produced Document (valid, with diagnostics, after an exception) by a predicate over public members; single-edit enumeration, model-level mutations that force error recovery, coverage-guided fuzzing with the predicate inside the target',
